@@ -3,8 +3,8 @@
 
 pub const VALUE_POOL: &[&str] = &[
     "5", "0", "--1", "100", "2.5", "2147483647", "\"abc\"", "\"\"", "\"é\"", "'ab'", "''", ":a", ":b", ":a.b", ":a.c", ":a.0", ":a.b.c", "(1 2)", "(1 2 3)", "(1, 2)", "((1 2) 3)", "(1 (2 3))", "(1 2 3 4 5 6)", "(,)", "(1,)",
-    "(:a = 1, :b = 2)", "(:a = (:b = 1,),)", "(:a = 1, 5, :b = (7 8))", ":k = 1", "(1 = 2)", "(:a = :b = 3)", "(1..3)", "(0..0)", "(3..1)", "((1 2) <> (3 4))", "((1 2) <> 3)", "(\"a\" <> \"b\")", "('a' <> 'b')",
-    "((1 2 3 4) <~ 1..2)", "(\"abcd\" <~ 1..2)", "{ 5 }", "{ $ }", "{ $ + 1 }", "{ $ == 1 }", "{ 1 < 2 }", "()", "$?", "$!", "(#5)", "(#\"a\")", "$", "({ $ } ~ 1)", "(1 2 3 ~ 4)",
+    "(:a = 1, :b = 2)", "(:a = (:b = 1,),)", "(:a = 1, 5, :b = (7 8))", "(() :a = 5)", "(:b = 6 () :a = 5 ())", ":k = 1", "(1 = 2)", "(:a = :b = 3)", "(1..3)", "(0..0)", "(3..1)", "((1 2) <> (3 4))", "((1 2) <> 3)", "(\"a\" <> \"b\")", "('a' <> 'b')",
+    "((1 2 3 4) <~ 1..2)", "(\"abcd\" <~ 1..2)", "('ab' . 0)", "(\"abc\" . 0)", "{ 5 }", "{ $ }", "{ $ + 1 }", "{ $ == 1 }", "{ 1 < 2 }", "()", "$?", "$!", "(#5)", "(#\"a\")", "$", "({ $ } ~ 1)", "(1 2 3 ~ 4)",
 ];
 
 pub const BINARY_OPS: &[&str] = &[
